@@ -136,7 +136,7 @@ def write_evidence(
         "scope_functions": sorted(col.scope_functions),
         "calls_resolved": col.calls_resolved,
         "calls_unresolved": col.calls_unresolved,
-        "paths_explored": col.paths_explored,
+        "abstract_states_explored": col.paths_explored,
         "known_findings_printed": known_printed,
         "exhaustive": True,
     }
